@@ -84,7 +84,11 @@ def _install():
         if tag == "tuple":
             return tuple(w.obj(i) for i in uw[1])
         if tag == "list":
-            return [w.obj(i) for i in uw[1]]
+            # the hook hands back a list it OWNS and keeps (the same object every time): a consumer must not change it
+            stored = w.__dict__.setdefault("_stored_lists", {})
+            if it.k not in stored:
+                stored[it.k] = [w.obj(i) for i in uw[1]]
+            return stored[it.k]
         if tag == "iter":
             @yields_frames
             def gen():
